@@ -29,7 +29,7 @@ ASSUMPTIONS = [
     "by differences only: parameter and auxiliary datum of such a component are held fixed and the residual must be constant",
     "points with a non-positive rate are out of domain and skipped (counted)",
 ]
-REQUIRED = ("logpdf", "main_plus_constraint", "aux_pairing", "expected_auxdata")
+REQUIRED = ("logpdf", "main_plus_constraint", "aux_pairing", "expected_auxdata", "trajectory_logpdf")
 
 
 def _constraint_signature(ref):
@@ -234,6 +234,64 @@ def check_case(case, shard):
             shard.covered("degenerate_components", "not reported fixed (informational)")
 
 
+def check_trajectory(case, shard, stride=9):
+    """Passive monitor: while an optimiser fits the model every `stride`-th logpdf call is compared with the
+    term-by-term reference at the point the optimiser chose."""
+    import pyhf
+    from pyhf import exceptions as E
+
+    tb = pyhf.tensorlib
+    model = c01.make_model(dict(case, batch=None))
+    spec = case["spec"]
+    L = Layout(model)
+    ref = RefModel(spec, L)
+    cs = ref.constraint_spec()
+    if any(comp["degenerate"] for comps in cs.values() for comp in comps):
+        shard.skip("trajectory: model has degenerate constraint components (difference checks only)")
+        return
+    rng = random.Random(case["seed"] + 9)
+    init = model.config.suggested_init()
+    rates = [max(float(x), 0.3) for x in to_np(model.expected_actualdata(tb.astensor(init)))]
+    main = [float(gen.poisson_draw(rng, r)) for r in rates]
+    aux = [float(a) for a in model.config.auxdata]
+    data = main + aux
+    seen = []
+    counter = [0]
+    orig = model.logpdf
+
+    def hooked(pars, d):
+        out = orig(pars, d)
+        counter[0] += 1
+        if counter[0] % stride == 0 and len(seen) < 10:
+            try:
+                seen.append(([float(x) for x in to_np(pars)], float(to_np(out).reshape(-1)[0])))
+            except Exception:
+                pass
+        return out
+
+    model.logpdf = hooked
+    try:
+        pyhf.infer.mle.fit(data, model)
+    except E.FailedMinimization:
+        pass
+    except Exception as e:
+        shard.skip(f"trajectory fit raised {type(e).__name__}")
+    finally:
+        del model.logpdf
+    for pars, got in seen:
+        r_ = [float(x) for x in to_np(model.expected_actualdata(tb.astensor(pars)))]
+        if any((not x > 0) for x in r_):
+            shard.skip("non-positive rate (out of domain)")
+            continue
+        mval, mscale = ref.main_logpdf(r_, main)
+        cval, cscale, nt, nd = ref.constraint_logpdf(pars, aux)
+        if not abs(got - (mval + cval)) <= 1e-10 * (mscale + cscale) + 1e-10:
+            shard.violate("C02/logpdf-mismatch", f"at an optimiser-visited point logpdf={got!r}, reference {mval + cval!r}", dict(case, pars=pars, data=data), "trajectory_logpdf")
+        else:
+            shard.ok("trajectory_logpdf")
+    shard.counters["optimiser_calls_seen"] += counter[0]
+
+
 def build_case(rng, backend, precision):
     case = c01.build_case(rng, backend, precision)
     case["clip_sample"] = case["clip_bin"] = None
@@ -263,6 +321,8 @@ def run_shard(shard):
         check_case(case, shard)
         if k == 0 and shard.index in (0, 8):
             shard.sample({k2: v for k2, v in case.items() if not k2.startswith("_")})
+        if p["backend"] == "numpy" and p["precision"] == "64b" and k % 4 == 1:
+            check_trajectory(case, shard)
 
 
 def replay(rec, shard):
